@@ -28,6 +28,12 @@ ASSUMPTIONS = [
 ]
 
 
+LEVELS = {"C17": "other"}
+EXPLAIN = {
+    "C17": "rng-frame obligations (one per seeded function, discharged syntactically and modularly by rngcheck) + native double-run stand-in; determinism itself rests on the assumed contracts of the random/numpy/networkx/scipy generators",
+}
+
+
 def _load():
     import faulthandler
     faulthandler.enable()
@@ -401,7 +407,7 @@ def run_property(pid, tier="quick", seed=0, extra=None):
                     for b in bres if not b.get("error")]
     if ext:
         bounded_list += ext.get("bounded", [])
-    level = "proof"
+    level = LEVELS.get(pid, "proof")
     ev = dict(
         property_id=pid, tier=tier, seed=seed, level=level,
         coverage=dict(
@@ -418,6 +424,7 @@ def run_property(pid, tier="quick", seed=0, extra=None):
             bounded=bounded_list,
             samples=[dict(name=o["name"], clause=o["clause"], status=o["status"], secs=o["secs"]) for o in obligations[:8]],
             extraction_drops="docstrings and comments only; f-string / message text evaluates to an opaque string",
+            explanation=EXPLAIN.get(pid, "every obligation generated from /repo's current source for this property's kernel was discharged by the listed back ends; bounded stand-ins are reported separately and never counted"),
         ),
         assumptions=ASSUMPTIONS + (ext.get("assumptions", []) if ext else []),
         wall_s=round(time.time() - t0, 2),
